@@ -49,6 +49,10 @@ def build_step(desc):
         return NoveltyStep()
     if k == "identity":
         return IdentityStep()
+    if k == "evaluate":
+        from geneticengine.algorithms.gp.operators.evaluation import EvaluateStep
+
+        return EvaluateStep()
     if k == "tournament":
         return TournamentSelection(desc[1], with_replacement=desc[2])
     if k == "lexicase":
